@@ -25,8 +25,14 @@ PROP = {
         # "leaves Pending() and Posted() exact" next to everything else that moves the counter (arming, disarming — also on
         # descriptors that were closed underneath —, cancelling, closing): the accounting clauses of the event-loop component
         RUN_LOOP_SCENARIOS],
-    "keys": ["post.*", "loop.pending-differs-from-ledger", "loop.posted-differs-from-ledger", "loop.ledger-pending-differs-from-operations-in-flight"],
-    "direct": [{"component": "post", "timeout": 1500}],
+    "keys": ["post.*", "loop.pending-differs-from-ledger", "loop.posted-differs-from-ledger", "loop.ledger-pending-differs-from-operations-in-flight",
+             "wshandshake.data-race"],
+    # "free of data races": the stress monitor once more under Go's race detector (harness built with -race), and the library's own
+    # user of Post from another goroutine — AsyncHandshake, which dials on a goroutine and posts the completion — with the failure
+    # callback handshaking again at once: the dialling goroutine must be done with the Stream when it posts
+    "direct": [{"component": "post", "timeout": 1500},
+               {"component": "post", "race": True, "keys": ["post.data-race"], "timeout": 1500},
+               {"component": "wshandshake", "race": True, "args": ["only=async-failure"], "keys": ["wshandshake.data-race"], "timeout": 900}],
     "rule": "trace mode: linearised schedules - goroutine k (k=0..3) calls ioc.Post(h) from its own goroutine and returns, handlers "
             "registered to post further handlers when they run (chains), PollOne on the loop's locked OS thread; observations: which "
             "handlers ran in which order, on which OS thread, Pending()/Posted() after every call; every sequence of 5 (7) steps over "
